@@ -7,6 +7,8 @@ export GOFLAGS=-mod=mod GOPROXY=off GOSUMDB=off GOTOOLCHAIN=local
 mkdir -p build evidence
 (cd tools/extract && go build -o ../../build/extract .)
 ./build/extract "${VERIF_REPO:-/repo}" lean/Gv/Gen
+(cd tools/detscan && go build -o ../../build/detscan .)
+./build/detscan "${VERIF_REPO:-/repo}" lean/Gv/Gen
 python3 -c "import sys; sys.path.insert(0, '.'); from driver import common; ok, out, _, _ = common.build_harness(); print(out); sys.exit(0 if ok else 1)"
 (cd lean && lake build Gv oracle)
 echo setup-ok
